@@ -1033,3 +1033,63 @@ theorem ok_final_empty (c : Cfg) (t : Term) (h : AllStart c) (hn : 0 < c.n) :
         simp [commEnds, commReadEnds, this]
 
 end Pipe
+
+namespace Pipe
+
+/-! ### Cleanup of a failed start when the started commands own arbitrary pipe ends
+
+`Pipeline::popen` after fix e678f50: when a command cannot be started, the pipe ends of ALL commands started so far are
+released first, and only then are the `Popen`s dropped (= waited for, unless detached).  `owned j` = what `Popen` j holds
+-- any ends at all, e.g. the read end of a stderr pipe of its own.  This is outside `Cfg` (which knows pipeline-level
+settings only); the pipe engine checks the real code against it in the `perr=` cases. -/
+
+def releaseAll (owned : List (List End)) : List Act := owned.flatMap (fun es => es.map Act.close)
+
+def waitAll (det : Nat → Bool) (k : Nat) : List Act := (List.range k).flatMap (fun j => if !det j then [Act.wait j] else [])
+
+def cleanupSeq (owned : List (List End)) (det : Nat → Bool) : List Act := releaseAll owned ++ waitAll det owned.length
+
+/-- the order before the fix: each `Popen` releases its own ends and is waited for before the next one is touched -/
+def cleanupSeqOld (owned : List (List End)) (det : Nat → Bool) : List Act :=
+  (List.range owned.length).flatMap (fun j => (owned.getD j []).map Act.close ++ (if !det j then [Act.wait j] else []))
+
+theorem heldAfter_releaseAll (h : Held) (owned : List (List End)) :
+    heldAfter h (releaseAll owned) = fun e => if ∃ es ∈ owned, e ∈ es then none else h e := by
+  induction owned generalizing h with
+  | nil => simp [releaseAll]
+  | cons es rest ih =>
+    simp only [releaseAll, List.flatMap_cons] at ih ⊢
+    rw [heldAfter_append, heldAfter_closes, ih]
+    funext e
+    by_cases h1 : e ∈ es
+    · simp [h1]
+    · by_cases h2 : ∃ es' ∈ rest, e ∈ es'
+      · simp [h2]
+      · have : ¬ ∃ es' ∈ es :: rest, e ∈ es' := by
+          rintro ⟨es', hm, he⟩
+          rcases List.mem_cons.mp hm with rfl | hm
+          · exact h1 he
+          · exact h2 ⟨es', hm, he⟩
+        simp [h1, h2, this]
+
+theorem waitsUnder_waitAll_empty (det : Nat → Bool) (k : Nat) :
+    WaitsUnder (fun h => ∀ e, h e = none) (fun _ => none) (waitAll det k) := by
+  unfold waitAll
+  induction k with
+  | zero => simp [WaitsUnder]
+  | succ k ih =>
+    rw [List.range_succ, List.flatMap_append, waitsUnder_append]
+    refine ⟨ih, ?_⟩
+    have hh : heldAfter (fun _ => none) ((List.range k).flatMap (fun j => if !det j then [Act.wait j] else [])) = fun _ => none := by
+      clear ih
+      induction k with
+      | zero => simp
+      | succ k ih2 =>
+        rw [List.range_succ, List.flatMap_append, heldAfter_append, ih2]
+        simp only [List.flatMap_cons, List.flatMap_nil, List.append_nil]
+        split <;> simp [stepHeld]
+    rw [hh]
+    simp only [List.flatMap_cons, List.flatMap_nil, List.append_nil]
+    split <;> simp [WaitsUnder]
+
+end Pipe
